@@ -610,7 +610,12 @@ class CallMixin:
         results = []
 
         def kk(v, s):
-            results.append((self.as_bool_term(v), s.pc[n0:]))
+            delta = s.pc[n0:]
+            facts = [d for d in delta if d.get_id() in s.fact_ids]
+            for f in facts:
+                if f.get_id() not in st.fact_ids:
+                    st.assume_fact(f)       # closed facts found on the way belong to the caller's hypotheses
+            results.append((self.as_bool_term(v), [d for d in delta if d.get_id() not in s.fact_ids]))
             return []
         outs = run(base, kk)
         for o, s in outs:
